@@ -93,6 +93,20 @@ def gen_data(ctx, d, nrec):
                 keys = sorted(rng.sample(["a", "b", "c", "d", "e"], rng.randrange(1, 4)))
                 H.write(">h%05d {%s}\n%s\n" % (i, ",".join('"%s":%d' % (k, rng.randrange(100)) for k in keys), rseq(rng, rng.randrange(20, 60))))
             H.write('>hlast {"zz":1}\nacgt\n')
+    # obisummary: every counter of its per-worker partial summaries gets a value of its own (merged_sample everywhere,
+    # obiclean_status everywhere, obiclean_weight on 9 records out of 10, vector / map / scalar tags on different subsets), in
+    # a file of several 1 MiB chunks, so that a slip in the merge of the partial summaries shows in the printed result
+    with open(os.path.join(d, "summary.fasta"), "w") as U:
+        for i in range(max(24000, nrec * 3)):
+            smp = {"s%d" % (i % 5): 1 + (i % 3), "s%d" % ((i + 2) % 5): 1 + (i % 2)}
+            ann = dict(count=sum(smp.values()), merged_sample=smp, obiclean_status={k: "hi s"[(i + j) % 4].strip() or "s" for j, k in enumerate(smp)})
+            if i % 10:
+                ann["obiclean_weight"] = {k: v + 1 for k, v in smp.items()}
+            if i % 3 == 0:
+                ann["vec"] = [1, 2, 3]
+            if i % 7 == 0:
+                ann["scalar_tag"] = "x%d" % (i % 4)
+            U.write(">u%05d %s\n%s\n" % (i, json.dumps(ann, separators=(",", ":")), rseq(rng, 30)))
     return pf, pr
 
 
@@ -123,6 +137,8 @@ def command_lines(d, pf, pr):
     ] + [("obicsv-auto-%d" % n, ["obicsv", "--auto", "--ids", "-s", os.path.join(d, "het_%d.fasta" % n)]) for n in HET_SIZES] + [
         ("obiconvert-het", ["obiconvert", "--json-output", os.path.join(d, "het_1000.fasta")]),
         ("obisummary-het", ["obisummary", "--json-output", os.path.join(d, "het_3000.fasta")]),
+        ("obisummary-rich", ["obisummary", "--json-output", os.path.join(d, "summary.fasta")]),
+        ("obisummary-rich-yaml", ["obisummary", "--yaml-output", os.path.join(d, "summary.fasta")]),
     ]
 
 
@@ -131,7 +147,9 @@ def run_cmd(bindir, argv, maxcpu, batch, gomax, trace=None, timeout=120):
     env.pop("OBIMAXCPU", None); env.pop("OBIBATCHSIZE", None)
     if trace:
         env["VERIF_POOL_TRACE"] = trace
-    cmd = [os.path.join(bindir, argv[0]), "--max-cpu", str(maxcpu), "--batch-size", str(batch)] + argv[1:]
+    # max-cpu 0 stands for --force-one-cpu (the only way to get a single worker: --max-cpu 1 is raised to 2)
+    par = ["--max-cpu", str(maxcpu)] if maxcpu > 0 else ["--force-one-cpu"]
+    cmd = [os.path.join(bindir, argv[0])] + par + ["--batch-size", str(batch)] + argv[1:]
     for attempt in range(3):
         try:
             if trace and attempt and os.path.exists(trace):
@@ -730,10 +748,10 @@ def _run(ctx, broken, d):
     rc0, out0, err0 = run_cmd(bindir, ["obipairing", "-F", os.path.join(d, "F.fastq"), "-R", os.path.join(d, "R.fastq"), "--min-overlap", "10"], 1, 2000, 1)
     open(os.path.join(d, "assembled.fastq"), "wb").write(out0)
     if ctx.quick:
-        grid = [(1, 2000, 1), (1, 1, 4), (2, 7, 2), (8, 1, 16), (8, 7, 16), (16, 2000, 16), (3, nrec, 3), (32, 2, 8)]
+        grid = [(1, 2000, 1), (1, 1, 4), (2, 7, 2), (8, 1, 16), (8, 7, 16), (16, 2000, 16), (3, nrec, 3), (32, 2, 8), (0, 2000, 4)]
         reps = 2
     else:
-        grid = [(c, b, g) for c in (1, 2, 3, 8, 32) for b in (1, 2, 7, 100, nrec) for g in (1, 4, 16)]
+        grid = [(c, b, g) for c in (1, 2, 3, 8, 32) for b in (1, 2, 7, 100, nrec) for g in (1, 4, 16)] + [(0, 2000, 1), (0, 7, 16)]
         reps = 4
     T['gen_data'] = round(time.time() - t0, 1)
     lines = command_lines(d, pf, pr)
